@@ -121,15 +121,15 @@ def registry_demo(chk):
             {"a": "register", "name": "x", "cls": "CustomSchema", "bases": [], "flag": "", "meth": ""}]
     ev = dict(registry.replay(hist), id=1, hist=hist)
     bad = 0
-    v = chk.validate_events("Trace_Registry", [ev], name="selftest_reg_ok")
+    v = chk.validate_events("Trace_Registry", [ev], name="selftest_reg_ok", extra_constants={"Scope": '"C16"'})
     print("registry history      ->", v[1])
     bad += v[1] != ("OK", False)
     ev2 = dict(ev, access=dict(ev["access"], x="AttributeError"))      # as if the failed registration left no trace
-    v = chk.validate_events("Trace_Registry", [ev2], name="selftest_reg_drift")
+    v = chk.validate_events("Trace_Registry", [ev2], name="selftest_reg_drift", extra_constants={"Scope": '"C16"'})
     print("access outcome altered->", v[1], "(drift expected)")
     bad += not v[1][1]
     ev3 = dict(ev, dispatch=dict(ev["dispatch"], CFull=dict(ev["dispatch"]["CFull"], Validator="NotImplementedError")))
-    v = chk.validate_events("Trace_Registry", [ev3], name="selftest_reg_fail")
+    v = chk.validate_events("Trace_Registry", [ev3], name="selftest_reg_fail", extra_constants={"Scope": '"C16"'})
     print("hook not dispatched   ->", v[1])
     bad += not v[1][0].startswith("FAIL")
     return bad
